@@ -209,6 +209,14 @@ func (e *Expression) GetGrlText() string {
 // GetSnapshot will create a structure signature or AST graph
 func (e *Expression) GetSnapshot() string {
 	var buff strings.Builder
+	e.writeSnapshot(&buff)
+
+	return buff.String()
+}
+
+// writeSnapshot writes the snapshot into the given builder. Nested expressions write into the same builder,
+// so that a long chain of operators is not copied once more for every level it is nested in.
+func (e *Expression) writeSnapshot(buff *strings.Builder) {
 	buff.WriteString(EXPRESSION)
 	buff.WriteString("(")
 	if e.SingleExpression != nil {
@@ -216,12 +224,12 @@ func (e *Expression) GetSnapshot() string {
 		if e.Negated {
 			buff.WriteString("!")
 		}
-		buff.WriteString(e.SingleExpression.GetSnapshot())
+		e.SingleExpression.writeSnapshot(buff)
 		buff.WriteString(")")
 	}
 	if e.LeftExpression != nil && e.RightExpression != nil {
 		buff.WriteString("EL(")
-		buff.WriteString(e.LeftExpression.GetSnapshot())
+		e.LeftExpression.writeSnapshot(buff)
 		buff.WriteString(")")
 
 		switch e.Operator {
@@ -258,7 +266,7 @@ func (e *Expression) GetSnapshot() string {
 		}
 
 		buff.WriteString("ER(")
-		buff.WriteString(e.RightExpression.GetSnapshot())
+		e.RightExpression.writeSnapshot(buff)
 		buff.WriteString(")")
 	}
 	if e.ExpressionAtom != nil {
@@ -267,8 +275,6 @@ func (e *Expression) GetSnapshot() string {
 		buff.WriteString(")")
 	}
 	buff.WriteString(")")
-
-	return buff.String()
 }
 
 // SetGrlText set the expression syntax related to this graph when it was constructed. Only ANTLR4 listener should
